@@ -218,6 +218,8 @@ static const char *const keywords[] = {
     "!!str ", "!!null ", "!!map ", "!!seq ", "|\n", ">\n", "|-\n", "a.b: 1\n", "a[2]: x\n", "a[+]: y\n", "\"a\\\\.b\": z\n", "k=v: w\n", "x#: 1\n",
     "\" lead\": 1\n", "\"trail \": 2\n", "\"\\u2028\": 3\n", "\"\\x85\": 4\n", "\"\\0\": 5\n", "[a, [b, {c: d}]]", "{a: [1, 2], b: {c: ~}}", "? [1]\n: 2\n",
     "\"\": empty\n", "\\", "#", "# comment\n", "\t", "  ", "\n", ",", "'", "\"",
+    "<<: *a\n", "<<: [*a, *a]\n", "!!binary |\n  R0lGODlh\n", "!!set {a, b}\n", "!!omap [a: 1]\n", "{a, b: c}", "- - - x\n", "&a\n", "*a : v\n", "&a &b x\n",
+    "%TAG ! tag:x,2000:\n", "!<tag:yaml.org,2002:str> v\n", "&a [*a]", "&a {k: *a}", "k: &a\n  - *a\n",
 };
 
 size_t LLVMFuzzerCustomMutator(uint8_t *data, size_t size, size_t max_size, unsigned int seed)
